@@ -134,8 +134,8 @@ def sweep(manifest, names, n_per_op, seed, kinds_limit=None):
     ungen = collections.Counter()
     for lean in names:
         d = manifest['defs'].get(lean)
-        if d is None or lean in skipped or d['name'] in HISTORY_OPS:
-            continue
+        if d is None or lean in skipped or d['name'] in HISTORY_OPS or d.get('stub'):
+            continue      # stubs have no Lean definition: implementation-side checks only
         ks = kinds_of(d)
         if kinds_limit:
             ks = ks[:kinds_limit]
